@@ -1998,10 +1998,14 @@ class Context:
         """Convert a Python value to JavaScript (iteratively, see _to_python)."""
 
         def shell(v):
+            # arrays and objects made from host values are ordinary ones: they
+            # inherit from this context's Array.prototype / Object.prototype
             if isinstance(v, list):
-                return JSArray()
+                arr = JSArray()
+                arr._prototype = getattr(self, "_array_prototype", None)
+                return arr
             if isinstance(v, dict):
-                return JSObject()
+                return JSObject(getattr(self, "_object_prototype", None))
             return None
 
         def leaf(v):
